@@ -63,6 +63,8 @@ const KEYS: &[KeyInfo] = &[
     KeyInfo { key: "CellT", copy: false, tracked: true, send: true, sync: false, droppable: true },
     KeyInfo { key: "PtrT", copy: false, tracked: true, send: false, sync: false, droppable: true },
     KeyInfo { key: "GuardT", copy: false, tracked: true, send: false, sync: true, droppable: true },
+    KeyInfo { key: "OptP4", copy: true, tracked: false, send: true, sync: true, droppable: false },
+    KeyInfo { key: "WrapStr", copy: false, tracked: true, send: true, sync: true, droppable: true },
     KeyInfo { key: "FnRc", copy: false, tracked: true, send: true, sync: true, droppable: true },
     KeyInfo { key: "MxCell", copy: false, tracked: true, send: true, sync: true, droppable: true },
 ];
@@ -85,6 +87,7 @@ macro_rules! with_key {
             "Over16" => $b.$m::<lab_types::Over16, _>($name),
             "Zst" => $b.$m::<lab_types::Zst, _>($name),
             "ZstA8" => $b.$m::<lab_types::ZstA8, _>($name),
+            "OptP4" => $b.$m::<lab_types::OptP4, _>($name),
             other => panic!("key {} is not Copy", other),
         }
     };
@@ -102,6 +105,7 @@ macro_rules! with_key_any {
             "CellT" => $b.add_datum::<lab_types::CellT, _>($name),
             "PtrT" => $b.add_datum::<lab_types::PtrT, _>($name),
             "GuardT" => $b.add_datum::<lab_types::GuardT, _>($name),
+            "WrapStr" => $b.add_datum::<lab_types::WrapStr, _>($name),
             "FnRc" => $b.add_datum::<lab_types::FnRc, _>($name),
             "MxCell" => $b.add_datum::<lab_types::MxCell, _>($name),
             other => with_key!(other, $b, add_datum, $name),
@@ -225,6 +229,8 @@ fn static_table() -> StaticTypeResolver {
     r.add_type::<lab_types::CellT>();
     r.add_type::<lab_types::PtrT>();
     r.add_type::<lab_types::GuardT>();
+    r.add_type_allow_uninit::<lab_types::OptP4>();
+    r.add_type::<lab_types::WrapStr>();
     r.add_type::<lab_types::FnRc>();
     r.add_type::<lab_types::MxCell>();
     r
@@ -342,6 +348,8 @@ fn key_tyname(key: &str) -> &'static str {
         "CellT" => n::<lab_types::CellT>(),
         "PtrT" => n::<lab_types::PtrT>(),
         "GuardT" => n::<lab_types::GuardT>(),
+        "OptP4" => n::<lab_types::OptP4>(),
+        "WrapStr" => n::<lab_types::WrapStr>(),
         "FnRc" => n::<lab_types::FnRc>(),
         "MxCell" => n::<lab_types::MxCell>(),
         other => panic!("unknown key {}", other),
